@@ -23,6 +23,8 @@ class Facts:
             with open(os.path.join(facts_dir, fn)) as f:
                 lines = f.readlines()
             lines = self._canonical_paths(lines)
+            lines = self._canonical_fields(lines)
+            lines = self._canonical_fns(lines)
             if True:
                 for line in lines:
                     r = json.loads(line)
@@ -45,6 +47,10 @@ class Facts:
                     elif k == "crate":
                         self.crates.append(r)
         self._cg = None
+        if not hasattr(self, "renamed_fields"):
+            self.renamed_fields = {}
+        if not hasattr(self, "renamed_fns"):
+            self.renamed_fns = {}
         self.removed_helpers = {}   # helpers inlined into all their callers by normalise(): not bodies of their own any more
 
     def _canonical_paths(self, lines):
@@ -92,6 +98,144 @@ class Facts:
             for rx, b_ in pats:
                 if rx.pattern and b_ is not None:
                     line = rx.sub(b_, line)
+            out.append(line)
+        return out
+
+    def _canonical_fields(self, lines):
+        """A field that was only renamed keeps its baseline name: for a struct/variant that exists in the baseline with the same
+        number of fields, the names that disappeared and the names that appeared are paired in declaration order when their types
+        agree; the new name is rewritten to the baseline one in the ADT record, in MIR projections and aggregates of that ADT, and
+        (when the new name is not a baseline field name of any type) in the source-level trees. Rules name the fields they reason
+        about by the names of the tree they were written against; a renamed field is the same field."""
+        import re
+        here = os.path.dirname(os.path.abspath(__file__))
+        bp = os.path.join(here, "baseline_fields.json")
+        if not os.path.exists(bp):
+            return lines
+        base = json.load(open(bp))
+        all_base_names = {n for vs in base.values() for fl in vs.values() for n, _ in fl}
+        mapping = {}     # (adt, new) -> old
+        for line in lines:
+            if '"k":"adt"' not in line[:20]:
+                continue
+            r = json.loads(line)
+            bv = base.get(r["path"])
+            if not bv:
+                continue
+            for v in r["variants"]:
+                bf = bv.get(v["name"])
+                if bf is None or len(bf) != len(v["fields"]):
+                    continue
+                cn = [f["name"] for f in v["fields"]]
+                bn = [n for n, _ in bf]
+                gone = [(n, t) for n, t in bf if n not in cn]
+                came = [(f["name"], f["ty"]) for f in v["fields"] if f["name"] not in bn]
+                if not gone or len(gone) != len(came):
+                    continue
+                if all(g[1] == c[1] for g, c in zip(gone, came)) and all(not c[0].isdigit() for c in came):
+                    for g, c in zip(gone, came):
+                        mapping[(r["path"], c[0])] = g[0]
+        if not mapping:
+            return lines
+        self.renamed_fields = dict(mapping)
+        novel = {}
+        for (adt, new_), old_ in mapping.items():
+            if new_ not in all_base_names:
+                novel.setdefault(new_, set()).add(old_)
+        novel = {n: next(iter(o)) for n, o in novel.items() if len(o) == 1}
+        out = []
+        for line in lines:
+            for (adt, new_), old_ in mapping.items():
+                if '"' + new_ + '"' not in line:
+                    continue
+                qa = re.escape(json.dumps(adt)[1:-1])
+                if '"k":"adt"' in line[:20] and json.dumps(adt) in line[:200]:
+                    line = line.replace('"name":"%s"' % new_, '"name":"%s"' % old_)
+                line = re.sub(r'"n":"%s","of":"%s"' % (re.escape(new_), qa), '"n":"%s","of":"%s"' % (old_, adt), line)
+                def fix(m, new_=new_, old_=old_):
+                    return m.group(1) + m.group(2).replace('"%s"' % new_, '"%s"' % old_) + m.group(3)
+                line = re.sub(r'("adt":"%s","variant":"[^"]*","fields":\[)([^\]]*)(\])' % qa, fix, line)
+            if '"k":"body"' in line[:20]:
+                for new_, old_ in novel.items():
+                    if '"' + new_ + '"' in line:
+                        line = line.replace('"name":"%s"' % new_, '"name":"%s"' % old_)
+            out.append(line)
+        return out
+
+    def _canonical_fns(self, lines):
+        """A function that was only renamed keeps its baseline name: within one container (a module for free functions, a type for
+        inherent methods, a trait for trait methods and all their impls) the names that disappeared and the names that appeared are
+        paired when there are equally many of them and their signatures agree pairwise; the new name is rewritten to the baseline one
+        in every path. A renamed function is the same function; without this it would be treated as a helper introduced later."""
+        import re
+        here = os.path.dirname(os.path.abspath(__file__))
+        bp = os.path.join(here, "baseline_sigs.json")
+        if not os.path.exists(bp):
+            return lines
+        base = json.load(open(bp))
+        cur = {}
+        order = {}
+        for line in lines:
+            if '"k":"body"' in line[:20]:
+                head = line[:line.find('"mir"')] if '"mir"' in line else line
+                m = re.search(r'"path":"((?:[^"\\]|\\.)*)","kind":"(fn|method)"', head)
+                if not m:
+                    continue
+                r = json.loads(line)
+                if r["kind"] not in ("fn", "method") or (r.get("parent") or {}).get("trait"):
+                    continue
+                if (r.get("parent") or {}).get("kind") == "trait":
+                    continue
+                sp = strip_generics(r["path"])
+                if "::" not in sp or sp.startswith("<"):
+                    continue
+                cont, nm = sp.rsplit("::", 1)
+                cur.setdefault(cont, {})[nm] = list(r.get("inputs") or []) + [r.get("output")]
+                order.setdefault(cont, []).append((r["span"]["file"], r["span"]["line"], nm))
+            elif '"k":"trait"' in line[:22]:
+                r = json.loads(line)
+                for it in r["items"]:
+                    if it.get("inputs") is not None:
+                        cur.setdefault("trait " + r["path"], {})[it["name"]] = list(it["inputs"]) + [it.get("output")]
+                        order.setdefault("trait " + r["path"], []).append(("", len(order.get("trait " + r["path"], [])), it["name"]))
+        all_base_names = {n for c in base.values() for n in c["names"]}
+        mapping = {}
+        for cont, names in cur.items():
+            b = base.get(cont)
+            if not b:
+                continue
+            gone = [n for n in b["order"] if n not in names]
+            came = [n for (_f, _l, n) in sorted(order[cont]) if n not in b["names"]]
+            if not gone or len(gone) != len(came):
+                continue
+            if all(b["names"][g] == names[c] for g, c in zip(gone, came)):
+                for g, c in zip(gone, came):
+                    mapping[(cont, c)] = g
+        if not mapping:
+            return lines
+        self.renamed_fns = {"%s::%s" % k: v for k, v in mapping.items()}
+        GA = r'(?:::<(?:[^"<>]|<(?:[^"<>]|<(?:[^"<>]|<[^"<>]*>)*>)*>)*>)?'
+        pats = []
+        novel = {}
+        for (cont, new_), old_ in mapping.items():
+            if cont.startswith("trait "):
+                tp = re.escape(cont[6:])
+                pats.append((re.compile(r'(?<![\w:])(' + tp + r'::)' + re.escape(new_) + r'(?![\w])'), old_, new_))
+                pats.append((re.compile(r'( as ' + tp + r'(?:<(?:[^"<>]|<(?:[^"<>]|<(?:[^"<>]|<[^"<>]*>)*>)*>)*>)?>::)' + re.escape(new_) + r'(?![\w])'), old_, new_))
+            else:
+                pats.append((re.compile(r'(?<![\w:])(' + re.escape(cont) + GA + r'::)' + re.escape(new_) + r'(?![\w])'), old_, new_))
+            if new_ not in all_base_names:
+                novel.setdefault(new_, set()).add(old_)
+        novel = {n: next(iter(o)) for n, o in novel.items() if len(o) == 1}
+        out = []
+        for line in lines:
+            for rx, old_, new_ in pats:
+                if new_ in line:
+                    line = rx.sub(lambda m, old_=old_: m.group(1) + old_, line)
+            for new_, old_ in novel.items():
+                if '"' + new_ + '"' in line:
+                    for k_ in ("name", "fn_name", "method"):
+                        line = line.replace('"%s":"%s"' % (k_, new_), '"%s":"%s"' % (k_, old_))
             out.append(line)
         return out
 
@@ -332,17 +476,10 @@ class Body:
             self._untracked = u
         return self._untracked
 
-    def reach_feasible(self, start, avoid=(), known=None):
-        """Reachability that follows only the feasible edge of a switch whose discriminant is known *on the path taken*:
-        booleans (`x = const`, `y = move x`, `z = !x`) and enum values built by aggregates (`r = Err(Kind::A)`; `match r`),
-        including nested payloads. Everything else is explored on all edges; on state explosion the plain (larger) set is returned."""
+    def feasible_step(self, x, env):
+        """One block of the path-sensitive walk: (environment after the block, feasible successors, was the branch decided by the environment)."""
         succ = self.succ_map()
-        avoid = set(avoid)
         untracked = self._untracked_locals()
-        seen = set()
-        out = set()
-        stack = [(start, tuple(sorted((known or {}).items())))]
-        steps = 0
 
         def ev_place(env, pl):
             v = env.get(pl["l"])
@@ -368,6 +505,76 @@ class Body:
             if o["k"] in ("copy", "move"):
                 return ev_place(env, o["pl"])
             return None
+        env = dict(env)
+        for st in self.blocks[x]["stmts"]:
+            if st["k"] == "setdiscr":
+                env.pop(st["pl"]["l"], None)
+                continue
+            if st["k"] != "assign":
+                continue
+            l = st["pl"]["l"]
+            if st["pl"]["p"] or l in untracked:
+                env.pop(l, None)
+                continue
+            rv = st["rv"]
+            val = None
+            if rv["k"] == "use":
+                val = ev_op(env, rv["op"])
+            elif rv["k"] == "un" and rv["op"] == "Not":
+                a = ev_op(env, rv["a"])
+                val = (not a) if isinstance(a, bool) else None
+            elif rv["k"] == "bin" and rv["op"] in ("BitOr", "BitAnd"):
+                a, b2 = ev_op(env, rv["a"]), ev_op(env, rv["b"])
+                if rv["op"] == "BitOr" and (a is True or b2 is True):
+                    val = True
+                elif rv["op"] == "BitAnd" and (a is False or b2 is False):
+                    val = False
+                elif isinstance(a, bool) and isinstance(b2, bool):
+                    val = (a or b2) if rv["op"] == "BitOr" else (a and b2)
+            elif rv["k"] == "agg" and rv.get("ak") == "adt" and rv.get("variant") is not None:
+                val = ("V", rv["variant"], tuple(ev_op(env, o) for o in rv["ops"]))
+            elif rv["k"] == "agg" and rv.get("ak") == "tuple":
+                val = ("V", None, tuple(ev_op(env, o) for o in rv["ops"]))
+            elif rv["k"] == "discr":
+                v = ev_place(env, rv["pl"])
+                if v is not None and not isinstance(v, bool) and v[0] == "V" and v[1] is not None:
+                    val = ("D", v[1])
+            if val is None:
+                env.pop(l, None)
+            else:
+                env[l] = val
+        t = self.blocks[x]["term"]
+        if t["k"] == "call":
+            env.pop(t["dest"]["l"], None)
+        nxt = succ[x]
+        decided = False
+        if t["k"] == "switch" and t["discr"]["k"] in ("copy", "move") and not t["discr"]["pl"]["p"]:
+            v = env.get(t["discr"]["pl"]["l"])
+            if isinstance(v, bool) and t.get("discr_ty") == "bool":
+                tgt = None
+                for a in t["arms"]:
+                    if (a["val"] != 0) == v:
+                        tgt = a["target"]
+                nxt = [tgt if tgt is not None else t["otherwise"]]
+                decided = True
+            elif v is not None and not isinstance(v, bool) and v[0] == "D" and all(a.get("name") for a in t["arms"]):
+                tgt = None
+                for a in t["arms"]:
+                    if a["name"] == v[1]:
+                        tgt = a["target"]
+                nxt = [tgt if tgt is not None else t["otherwise"]]
+                decided = True
+        return env, nxt, decided
+
+    def reach_feasible(self, start, avoid=(), known=None):
+        """Reachability that follows only the feasible edge of a switch whose discriminant is known *on the path taken*:
+        booleans (`x = const`, `y = move x`, `z = !x`) and enum values built by aggregates (`r = Err(Kind::A)`; `match r`),
+        including nested payloads. Everything else is explored on all edges; on state explosion the plain (larger) set is returned."""
+        avoid = set(avoid)
+        seen = set()
+        out = set()
+        stack = [(start, tuple(sorted((known or {}).items())))]
+        steps = 0
         while stack:
             steps += 1
             if steps > 40000:
@@ -377,63 +584,7 @@ class Body:
                 continue
             seen.add((x, envt))
             out.add(x)
-            env = dict(envt)
-            for st in self.blocks[x]["stmts"]:
-                if st["k"] == "setdiscr":
-                    env.pop(st["pl"]["l"], None)
-                    continue
-                if st["k"] != "assign":
-                    continue
-                l = st["pl"]["l"]
-                if st["pl"]["p"] or l in untracked:
-                    env.pop(l, None)
-                    continue
-                rv = st["rv"]
-                val = None
-                if rv["k"] == "use":
-                    val = ev_op(env, rv["op"])
-                elif rv["k"] == "un" and rv["op"] == "Not":
-                    a = ev_op(env, rv["a"])
-                    val = (not a) if isinstance(a, bool) else None
-                elif rv["k"] == "bin" and rv["op"] in ("BitOr", "BitAnd"):
-                    a, b2 = ev_op(env, rv["a"]), ev_op(env, rv["b"])
-                    if rv["op"] == "BitOr" and (a is True or b2 is True):
-                        val = True
-                    elif rv["op"] == "BitAnd" and (a is False or b2 is False):
-                        val = False
-                    elif isinstance(a, bool) and isinstance(b2, bool):
-                        val = (a or b2) if rv["op"] == "BitOr" else (a and b2)
-                elif rv["k"] == "agg" and rv.get("ak") == "adt" and rv.get("variant") is not None:
-                    val = ("V", rv["variant"], tuple(ev_op(env, o) for o in rv["ops"]))
-                elif rv["k"] == "agg" and rv.get("ak") == "tuple":
-                    val = ("V", None, tuple(ev_op(env, o) for o in rv["ops"]))
-                elif rv["k"] == "discr":
-                    v = ev_place(env, rv["pl"])
-                    if v is not None and not isinstance(v, bool) and v[0] == "V" and v[1] is not None:
-                        val = ("D", v[1])
-                if val is None:
-                    env.pop(l, None)
-                else:
-                    env[l] = val
-            t = self.blocks[x]["term"]
-            if t["k"] == "call":
-                env.pop(t["dest"]["l"], None)
-            nxt = succ[x]
-            if t["k"] == "switch" and t["discr"]["k"] in ("copy", "move") and not t["discr"]["pl"]["p"]:
-                v = env.get(t["discr"]["pl"]["l"])
-                if isinstance(v, bool) and t.get("discr_ty") == "bool":
-                    tgt = None
-                    for a in t["arms"]:
-                        if (a["val"] != 0) == v:
-                            tgt = a["target"]
-                    nxt = [tgt if tgt is not None else t["otherwise"]]
-                elif v is not None and not isinstance(v, bool) and v[0] == "D" and all(a.get("name") for a in t["arms"]):
-                    tgt = None
-                    for a in t["arms"]:
-                        if a["name"] == v[1]:
-                            tgt = a["target"]
-                    nxt = [tgt if tgt is not None else t["otherwise"]]
-            # forget what is not needed to keep the state space small: values are only read through locals
+            env, nxt, _dec = self.feasible_step(x, dict(envt))
             et = tuple(sorted(env.items(), key=lambda kv: kv[0]))
             for y in nxt:
                 stack.append((y, et))
